@@ -1,12 +1,15 @@
 """C18 - output is a function of the dump, not of the host operating system.
 
-Product run: the same decoder window is executed under platform A's host tables and, for each kind
-of host table the run consulted, again with that one table swapped for platform B's; z3 decides
-whether the two renderings can differ.  Platforms: Darwin (oracle/darwin.py) and Linux x86_64
-(oracle/linux.py, a snapshot) -- the verdict does not depend on the machine the check runs on.
+Product run: the same decoder window is executed on platform A (Darwin's tables where oracle/darwin.py has them, the
+running host's value for everything else) and, for each host attribute the run consulted, again with that one
+attribute swapped for platform B's (Linux x86_64 tables from oracle/linux.py, or a perturbed copy of the host's
+value); z3 decides whether the two renderings can differ.  'The host' as the decoders see it is a set of proxy
+modules (errno, signal, socket, os, sys, stat, fcntl, resource, platform, locale, time) installed in place of the
+real modules in the globals of the repo's modules; every attribute read through them is recorded with its call site.
 """
 import enum
 import sys
+import types
 import z3
 from vxlib import sweep
 from vxlib.symx import And, Or, Not, Atom, SymTable, SymInt, OutOfDomain
@@ -15,17 +18,21 @@ from vxlib.paths import REPO_PREFIX
 
 PROPERTY = 'C18'
 STUBS = ['struct.unpack model', 'enum lookup forks over the members of the (swapped) enum class',
-         'errno table as SymTable built from the platform table', 'atoms for rendered ints', 'AST merge rewrites']
-ASSUMPTIONS = ['a host platform is modelled by five tables: errno.errorcode, signal.Signals, socket.AddressFamily, '
-               'socket.SocketKind, socket.SOL_SOCKET; two platforms are compared: Darwin (xnu headers) and Linux x86_64',
-               'the code reaches the host tables through the errno/signal/socket modules or through module globals bound '
-               'to those objects (both are swapped)']
-OUTSIDE = ['host dependence through anything other than those five tables (locale, time zone, Python version)',
+         'errno table as SymTable built from the platform table', 'atoms for rendered ints', 'AST merge rewrites',
+         'host modules replaced by recording proxy modules in the globals of the repo modules']
+ASSUMPTIONS = ['a host platform is what the decoders can read through the modules errno, signal, socket, os, sys, stat, fcntl, '
+               'resource, platform, locale, time (module globals of the repo bound to those modules, or to objects taken from them)',
+               'two platforms are compared: Darwin (xnu headers) vs Linux x86_64 for error names, signals, address families, '
+               'socket types and SOL_SOCKET; for any other host attribute consulted, the host\'s value vs a perturbed copy '
+               '(enum values rotated, ints changed, sys.maxsize = 2^31-1, strings replaced, function results tagged)']
+OUTSIDE = ['host dependence through channels other than those modules (C extensions, environment variables read elsewhere)',
            'platforms other than the two compared']
 EXPLORE_OPTS = {'max_paths': 30000, 'max_seconds': 900}
-KINDS = ('errno', 'signal', 'family', 'socktype', 'sol_socket')
 weight = sweep.weight
-_state = {}
+HOST_MODULES = ('errno', 'signal', 'socket', 'os', 'sys', 'stat', 'fcntl', 'resource', 'platform', 'locale', 'time')
+KIND_NAMES = {('errno', 'errorcode'): 'errno', ('signal', 'Signals'): 'signal', ('socket', 'AddressFamily'): 'family',
+              ('socket', 'SocketKind'): 'socktype', ('socket', 'SOL_SOCKET'): 'sol_socket'}
+_state = {'used': set(), 'overrides': {}, 'installed': False}
 
 
 def setup(symbolic):
@@ -37,7 +44,7 @@ def setup(symbolic):
 
 def bounds(tier):
     return {'decoders': 'every BSC_*/MSC_* decoder', 'words': 'a0..a3, r0..r3 free 64-bit (all error codes, signal numbers, '
-            'families, socket types, option levels)', 'platforms': 'Darwin vs Linux x86_64, one table kind swapped at a time',
+            'families, socket types, option levels)', 'platforms': 'A vs B, one consulted host attribute swapped at a time',
             'window': 'START, END, no lookups'}
 
 
@@ -45,132 +52,237 @@ def structures(tier):
     return [{'name': n} for n in sweep.decoder_names()]
 
 
+def _site():
+    f = sys._getframe(2)
+    while f is not None and not f.f_code.co_filename.startswith(REPO_PREFIX):
+        f = f.f_back
+    return f.f_code.co_name if f is not None else '?'
+
+
+def kind_of(mod, attr):
+    return KIND_NAMES.get((mod, attr), '%s.%s' % (mod, attr))
+
+
 class RecTable(SymTable):
-    """platform errno table; records that (and from where) it was consulted"""
+    """platform errno table (membership = union of intervals, name = lookup atom)"""
     sx_name = 'errno'
     sx_small = 0
 
-    def _rec(self):
-        f = sys._getframe(2)
-        while f is not None and not f.f_code.co_filename.startswith(REPO_PREFIX):
-            f = f.f_back
-        _state['used'].add(('errno', f.f_code.co_name if f is not None else '?'))
 
-    def __contains__(self, k):
-        self._rec()
-        return SymTable.__contains__(self, k)
+class RecInt(int):
+    """host integer constant: records being combined with a symbolic value"""
 
-    def __getitem__(self, k):
-        self._rec()
-        return SymTable.__getitem__(self, k)
-
-    def get(self, k, d=None):
-        self._rec()
-        return SymTable.get(self, k, d)
+    def _sx_on_use(self):
+        _state['used'].add((self._sx_kind, _site()))
 
 
-def _mk_enum(name, members):
-    return enum.IntEnum(name, sorted(members.items(), key=lambda kv: (kv[1], kv[0])))
+class HostModule(types.ModuleType):
+    """stands for a host module in the globals of the repo's modules"""
+
+    def __init__(self, real):
+        super().__init__(real.__name__)
+        self.__dict__['_real'] = real
+
+    def __getattr__(self, name):
+        real = self.__dict__['_real']
+        val = getattr(real, name)
+        if name.startswith('__'):
+            return val
+        kind = kind_of(real.__name__, name)
+        _state['used'].add((kind, _site()))
+        ov = _state['overrides']
+        if kind in ov:
+            val = ov[kind]
+        else:
+            val = platform_a(real.__name__, name, val)
+        return wrap(kind, val)
 
 
-def platforms():
-    if 'plat' not in _state:
-        import pykdebugparser.traces_parser      # noqa: repo modules must bind the real host objects before any swap
+def wrap(kind, val):
+    if isinstance(val, bool):
+        return val
+    if isinstance(val, int) and not isinstance(val, enum.Enum):
+        r = RecInt(val)
+        r._sx_kind = kind
+        return r
+    if isinstance(val, dict) and not isinstance(val, RecTable):
+        return RecTable(val)
+    return val
+
+
+def _mk_enum(name, members, base=enum.IntEnum):
+    return base(name, sorted(members.items(), key=lambda kv: (kv[1], kv[0])))
+
+
+def _tables():
+    if 'tables' not in _state:
         from oracle import darwin, linux
         out = {}
         for nm, mod in (('darwin', darwin), ('linux', linux)):
             out[nm] = {'errno': dict(mod.ERRNO), 'signal': _mk_enum('Signals', mod.SIGNALS),
                        'family': _mk_enum('AddressFamily', mod.AF), 'socktype': _mk_enum('SocketKind', mod.SOCK),
                        'sol_socket': mod.SOL_SOCKET}
-        _state['plat'] = out
-        import errno, signal, socket
-        from vxlib.symx import shims
-        _state['orig'] = {'errno': shims.real('errorcode'), 'signal': signal.Signals, 'family': socket.AddressFamily,
-                          'socktype': socket.SocketKind, 'sol_socket': socket.SOL_SOCKET}
-    return _state['plat']
+        _state['tables'] = out
+    return _state['tables']
 
 
-class _RecInt(int):
-    """platform constant that records being compared with a symbolic value"""
+def platform_a(mod, attr, host_value):
+    k = KIND_NAMES.get((mod, attr))
+    if k is not None:
+        return _tables()['darwin'][k]
+    if mod == 'errno' and attr == 'errorcode':
+        return _tables()['darwin']['errno']
+    return host_value
 
-    def _sx_on_use(self):
-        f = sys._getframe(2)
-        while f is not None and not f.f_code.co_filename.startswith(REPO_PREFIX):
-            f = f.f_back
-        _state['used'].add(('sol_socket', f.f_code.co_name if f is not None else '?'))
+
+_perturbed = {}
 
 
-def apply(tables):
-    """install the given kind->table mapping as 'the host'; returns an undo list"""
-    import errno, signal, socket
-    orig = _state['orig']
-    undo = []
+def platform_b(kind, a_value):
+    """the value platform B has for a host attribute"""
+    if kind in _tables()['linux']:
+        return _tables()['linux'][kind]
+    key = (kind, id(a_value))
+    if key in _perturbed:
+        return _perturbed[key]
+    v = a_value
+    if isinstance(v, type) and issubclass(v, enum.Enum):
+        members = [(n, m.value) for n, m in v.__members__.items() if isinstance(m.value, int)]
+        vals = sorted({x for _, x in members})
+        nxt = {x: vals[(i + 1) % len(vals)] for i, x in enumerate(vals)} if len(vals) > 1 else {x: x + 1 for x in vals}
+        base = enum.IntFlag if issubclass(v, enum.IntFlag) else enum.IntEnum
+        out = base(v.__name__, [(n, nxt[x]) for n, x in members])
+    elif isinstance(v, bool):
+        out = not v
+    elif isinstance(v, int):
+        out = (2 ** 31 - 1) if kind == 'sys.maxsize' else int(v) + 1
+    elif isinstance(v, str):
+        out = {'sys.platform': 'linux' if v != 'linux' else 'darwin', 'sys.byteorder': 'big' if v != 'big' else 'little',
+               'os.name': 'nt' if v != 'nt' else 'posix'}.get(kind, v + '-other-host')
+    elif isinstance(v, dict):
+        ks = sorted(v, key=repr)
+        out = {k: v[ks[(i + 1) % len(ks)]] for i, k in enumerate(ks)} if len(ks) > 1 else {}
+    elif callable(v):
+        def out(*a, _f=v, **kw):
+            r = _f(*a, **kw)
+            if isinstance(r, str):
+                return 'other-host:' + r
+            if isinstance(r, bool):
+                return not r
+            if isinstance(r, int):
+                return r + 1
+            return r
+    else:
+        out = v
+    _perturbed[key] = out
+    return out
 
-    def setattr_(obj, name, val):
-        undo.append((obj, name, getattr(obj, name)))
-        setattr(obj, name, val)
-    setattr_(errno, 'errorcode', RecTable(tables['errno']))
-    setattr_(signal, 'Signals', tables['signal'])
-    setattr_(socket, 'AddressFamily', tables['family'])
-    setattr_(socket, 'SocketKind', tables['socktype'])
-    setattr_(socket, 'SOL_SOCKET', _RecInt(tables['sol_socket']))
-    by_obj = {id(orig['signal']): 'signal', id(orig['family']): 'family', id(orig['socktype']): 'socktype',
-              id(orig['errno']): 'errno'}
+
+def install_proxies():
+    """replace host modules / host objects in the globals of the repo modules (once per process)"""
+    if _state['installed']:
+        return
+    _state['installed'] = True
+    import importlib
+    import re
+    import pykdebugparser.traces_parser      # noqa: make sure the handler modules are loaded
+    from vxlib.symx import shims
+    hosts = {}
+    for m in HOST_MODULES:
+        try:
+            hosts[m] = importlib.import_module(m)
+        except ImportError:
+            pass
+    _state['hosts'] = hosts
+    proxies = {m: HostModule(real) for m, real in hosts.items()}
+    real_errorcode = shims.real('errorcode')
+    direct = {}      # id(host object) -> (module, attr) for objects imported by name
+    for m, real in hosts.items():
+        for attr, val in vars(real).items():
+            if isinstance(val, type) and issubclass(val, enum.Enum):
+                direct[id(val)] = (m, attr)
+    direct[id(real_errorcode)] = ('errno', 'errorcode')
+    _state['direct'] = []
     for mname, mod in list(sys.modules.items()):
         if mod is None or not (mname == 'pykdebugparser' or mname.startswith('pykdebugparser.')):
             continue
+        try:
+            text = open(getattr(mod, '__file__', '') or '').read()
+        except OSError:
+            text = ''
         for gname, gval in list(vars(mod).items()):
-            k = by_obj.get(id(gval))
-            if k is None and isinstance(gval, (RecTable,)):
-                k = 'errno'
-            if k is None and gname in _state.get('enum_globals', {}).get(mname, {}):
-                k = _state['enum_globals'][mname][gname]
-            if k is None and gname == 'SOL_SOCKET' and isinstance(gval, int):
-                k = 'sol_socket'
-            if k is None:
-                continue
-            _state.setdefault('enum_globals', {}).setdefault(mname, {})[gname] = k
-            undo.append((mod, gname, gval))
-            setattr(mod, gname, RecTable(tables['errno']) if k == 'errno' else _RecInt(tables[k]) if k == 'sol_socket' else tables[k])
-    return undo
+            if isinstance(gval, types.ModuleType) and gval.__name__ in proxies and not isinstance(gval, HostModule):
+                setattr(mod, gname, proxies[gval.__name__])
+            elif id(gval) in direct:
+                _state['direct'].append((mod, gname, direct[id(gval)]))
+            elif isinstance(gval, SymTable) and dict(gval) == dict(real_errorcode):
+                _state['direct'].append((mod, gname, ('errno', 'errorcode')))
+            elif isinstance(gval, (int, str)) and not isinstance(gval, bool) and not gname.startswith('_'):
+                # a constant imported by name from a host module (from socket import SOL_SOCKET)
+                for m, real in hosts.items():
+                    if getattr(real, gname, None) == gval and re.search(r'from\s+%s\s+import[^\n]*\b%s\b' % (m, gname), text):
+                        _state['direct'].append((mod, gname, (m, gname)))
+                        break
 
 
-def unapply(undo):
-    for obj, name, val in reversed(undo):
-        setattr(obj, name, val)
-
-
-_KIND_OF_CLASS = {'Signals': 'signal', 'AddressFamily': 'family', 'SocketKind': 'socktype'}
-
-
-def _window(ctx, name, a, r, tables):
-    """run the decoder window with `tables` as the host; returns (Outcome, kinds used with their sites)"""
+def apply(overrides):
+    """make `overrides` (kind -> platform B value) the current host; objects imported by name are rebound"""
+    _state['overrides'] = overrides
     from vxlib.symx import shims
+    for mod, gname, (m, attr) in _state['direct']:
+        kind = kind_of(m, attr)
+        if kind in overrides:
+            val = overrides[kind]
+        else:
+            real = shims.real('errorcode') if (m, attr) == ('errno', 'errorcode') else getattr(_state['hosts'][m], attr)
+            val = platform_a(m, attr, real)
+        setattr(mod, gname, wrap(kind, val))
+
+
+def _window(ctx, name, a, r, overrides):
+    install_proxies()
     _state['used'] = set()
-    undo = apply(tables)
-    # record enum lookups on the platform enum classes
-    real_call = enum.EnumType.__call__
-    plat_classes = {id(tables[k]): k for k in ('signal', 'family', 'socktype')}
+    apply(overrides)
+    real_call, real_iter = enum.EnumType.__call__, enum.EnumType.__iter__
+    direct_kinds = {}
+    for mod, gname, (m, attr) in _state['direct']:
+        v = getattr(mod, gname)
+        if isinstance(v, type):
+            direct_kinds[id(v)] = kind_of(m, attr)
+        elif isinstance(v, RecTable):
+            v._sx_kind = kind_of(m, attr)
 
     def rec_call(cls, value, *aa, **kw):
-        k = plat_classes.get(id(cls))
+        k = direct_kinds.get(id(cls))
         if k is not None and not aa and not kw:
-            f = sys._getframe(1)
-            while f is not None and not f.f_code.co_filename.startswith(REPO_PREFIX):
-                f = f.f_back
-            _state['used'].add((k, f.f_code.co_name if f is not None else '?'))
+            _state['used'].add((k, _site()))
         return real_call(cls, value, *aa, **kw)
+
+    def rec_iter(cls):
+        k = direct_kinds.get(id(cls))
+        if k is not None:
+            _state['used'].add((k, _site()))
+        return real_iter(cls)
     enum.EnumType.__call__ = rec_call
+    enum.EnumType.__iter__ = rec_iter
     try:
         o = sweep.run_window(ctx, name, a, r)
     finally:
         enum.EnumType.__call__ = real_call
-        unapply(undo)
+        enum.EnumType.__iter__ = real_iter
     return o, set(_state['used'])
 
 
+def _a_value(kind):
+    """platform A's value of a kind (platform B's is derived from it)"""
+    for (m, attr), k in KIND_NAMES.items():
+        if k == kind:
+            return _tables()['darwin'][k]
+    m, attr = kind.split('.', 1)
+    return getattr(_state['hosts'][m], attr)
+
+
 def _lookup_differs(x, y):
-    """condition under which two errno lookup atoms over different tables render differently"""
     t1, t2 = dict(x.extra), dict(y.extra)
     diff = [k for k in set(t1) | set(t2) if t1.get(k) != t2.get(k)]
     if not diff:
@@ -179,7 +291,6 @@ def _lookup_differs(x, y):
 
 
 def _texts_equal(p1, p2):
-    """like sweep.pieces_equal but errno-name atoms over different platform tables are compared by table content"""
     if len(p1) != len(p2):
         return False
     conds = []
@@ -193,30 +304,21 @@ def _texts_equal(p1, p2):
 
 def run(ctx, st):
     name = st['name']
-    plats = platforms()
-    A, B = plats['darwin'], plats['linux']
     a = [ctx.int('a%d' % i) for i in range(4)]
     r = [ctx.int('r%d' % i) for i in range(4)]
-    o1, used = _window(ctx, name, a, r, A)
+    o1, used = _window(ctx, name, a, r, {})
     if o1.kind == 'text':
-        ctx.observe('text-on-darwin', o1.text)
+        ctx.observe('text-on-platform-A', o1.text)
     kinds = sorted({k for k, _ in used})
-    if not ctx.symbolic:
-        kinds = list(KINDS)           # concrete replay: no recording needed, swap every kind in turn
     for k in kinds:
-        tables = dict(A)
-        tables[k] = B[k]
-        o2, used2 = _window(ctx, name, a, r, tables)
+        o2, used2 = _window(ctx, name, a, r, {k: platform_b(k, _a_value(k))})
         sites = sorted({s for kk, s in used | used2 if kk == k}) or ['?']
-        if ctx.symbolic:
-            labels = ['C18/%s@%s' % (k, s) for s in sites]
-        else:
-            labels = [lb for lb in getattr(ctx, 'hints', []) if lb.startswith('C18/%s@' % k)] or ['C18/%s@?' % k]
         if o1.kind == 'text' and o2.kind == 'text':
             same = _texts_equal(o1.pieces, o2.pieces) if ctx.symbolic else (o1.text == o2.text)
         else:
             same = (o1.kind == o2.kind) and (type(o1.exc) is type(o2.exc))
-        for lb in labels:
-            ctx.check(lb, same, '%s: %s / %s' % (name, o1.text if o1.kind == 'text' and not ctx.symbolic else o1.kind,
-                                               o2.text if o2.kind == 'text' and not ctx.symbolic else o2.kind))
+        for s in sites:
+            ctx.check('C18/%s@%s' % (k, s), same, '%s: %s / %s' % (name, o1.text if o1.kind == 'text' and not ctx.symbolic else o1.kind,
+                                                                   o2.text if o2.kind == 'text' and not ctx.symbolic else o2.kind))
+    apply({})
     ctx.reach()
